@@ -615,12 +615,15 @@ func (c *ControlPlane) handleTCPDnsFastPath(ctx context.Context, lConn net.Conn,
 		// Not a valid DNS query - not DNS traffic, fall through to normal TCP handling
 		// The bufio.Reader has buffered but not consumed the data, so the caller
 		// should use a bufioConn wrapper to preserve the buffered data.
+		// The detection deadline must not leak into the relay phase.
+		_ = lConn.SetReadDeadline(time.Time{})
 		return false, nil
 	}
 
 	// Verify it's a query, not a response
 	if msg.Response {
 		// Received a response instead of a query - not DNS client traffic
+		_ = lConn.SetReadDeadline(time.Time{})
 		return false, nil
 	}
 	// This is DNS-over-TCP traffic - handle all queries on this connection
